@@ -27,7 +27,7 @@ from qiskit_addon_cutting.utils.observable_grouping import CommutingObservableGr
 from common import CaseWriter, Interner, Nc, Opt, Qc, Raw, Res, Zc, call_canon, coq, tagged, untag
 
 IMPORTS = ("From Coq Require Import QArith String. "
-           "From CKT Require Import Common.Base Model.Reconstruct Corr.C06Corr. "
+           "From CKT Require Import Common.Base Model.Observables Model.Grouping Model.Reconstruct Corr.C06Corr. "
            "Close Scope Q_scope. Open Scope nat_scope.")
 CASE_TYPES = {
     "chk_reconstruct": "robj * list Q * oobj * res (list Q)",
@@ -39,6 +39,7 @@ CASE_TYPES = {
     "chk_reconstruct_tol": "robj * list Q * oobj * res (list Q)",
     "chk_cog": "letters * list letters * list nat * list N",
     "chk_lookup": "list lgroup * list letters * list (list (nat * nat))",
+    "chk_collection_part": "list pauli * list pauli * list (list pauli) * list (nat * list N) * list (list (nat * nat))",
 }
 LETTER = {"I": 0, "X": 1, "Y": 2, "Z": 3}
 
@@ -650,6 +651,16 @@ def add_reconstruct(w, group, spec, mon, nontrivial_if_ok=True, extra=None, chec
                 add_cog(w, g["general"], g["members"], g["impl_indices"], g["impl_masks"])
             gl = [(letters(g["general"]), [letters(m) for m in g["members"]]) for g in a["groups"]]
             w.add("lookup", "chk_lookup", (gl, [letters(x) for x in a["subobs"]], [list(map(tuple, l)) for l in a["impl_lookup"]]),
+                  dict(kind="lookup", groups=[dict(general=g["general"], members=g["members"]) for g in a["groups"]],
+                       subobs=a["subobs"], impl=a["impl_lookup"]),
+                  nontrivial=len(a["groups"]) > 1)
+            # the same partition through C11's model of ObservableCollection (bridge theorem c06_grouping_bridge)
+            pp = lambda lab: Raw(f"(PP 0 {coq(letters(lab))})")  # noqa: E731
+            uniq = list(dict.fromkeys(a["subobs"]))
+            w.add("collection_part", "chk_collection_part",
+                  ([pp(x) for x in a["subobs"]], [pp(x) for x in uniq], [[pp(x) for x in g["members"]] for g in a["groups"]],
+                   [(len(g["impl_indices"]), [Nc(m) for m in g["impl_masks"]]) for g in a["groups"]],
+                   [list(map(tuple, l)) for l in a["impl_lookup"]]),
                   dict(kind="lookup", groups=[dict(general=g["general"], members=g["members"]) for g in a["groups"]],
                        subobs=a["subobs"], impl=a["impl_lookup"]),
                   nontrivial=len(a["groups"]) > 1)
